@@ -55,7 +55,8 @@ fn status_value(rng: &mut Rng) -> (Option<ServerStatus>, Value) {
     if rng.chance(1, 4) {
         return (None, Value::Null);
     }
-    let name = format!("Passage {}", rng.ascii_name(1, 6));
+    // (names and texts with characters of two, three and four bytes: a length counts bytes)
+    let name = match rng.below(4) { 0 => format!("Passage §a{} — ünï", rng.ascii_name(1, 6)), 1 => format!("世界 {} 😀", rng.ascii_name(1, 4)), _ => format!("Passage {}", rng.ascii_name(1, 6)) };
     let protocol = rng.range(-1, 800) as i32;
     let players = if rng.bool() {
         let sample = if rng.bool() { Some(vec![ServerPlayer { name: rng.ascii_name(3, 8), id: uuid_string(rng.u64() as u128) }]) } else { None };
@@ -63,7 +64,7 @@ fn status_value(rng: &mut Rng) -> (Option<ServerStatus>, Value) {
     } else {
         None
     };
-    let description_json = if rng.bool() { Some(json!({"text": format!("motd {}", rng.ascii_name(0, 12)), "color": "gold"})) } else { None };
+    let description_json = if rng.bool() { Some(json!({"text": if rng.bool() { format!("motd {}", rng.ascii_name(0, 12)) } else { format!("§6motd — {} · Grüße 世界", rng.ascii_name(0, 12)) }, "color": "gold"})) } else { None };
     // a real server icon is 10-30 KB of base64: the frame then needs a 3-byte length prefix
     let favicon = match rng.below(6) {
         0 | 1 => Some(format!("data:image/png;base64,{}", rng.ascii_name(4, 20))),
